@@ -82,6 +82,34 @@ type Case struct {
 	// times over. Every result is judged like a sequential one.
 	Conc   [][]CliOp `json:"conc,omitempty"`
 	Rounds int       `json:"rounds,omitempty"`
+	// Pipe: after the sequential raw session (and before the visit of every
+	// node) groups of requests are PIPELINED on one fid: see Burst.
+	Pipe []Burst `json:"pipe,omitempty"`
+}
+
+// pipeFid is the fid the requests of a burst share; request j of a burst that
+// walks to a new fid uses pipeFid+1+j.
+const pipeFid = 0x00C17000
+
+// Burst is a group of requests that name the same fid F and are written to the
+// connection in ONE write, so that the server has all of them in hand before it
+// has answered any (it serves every request in a goroutine of its own). F is a
+// fresh fid walked from the root along Start (existing real directories) to a
+// directory S. Reqs are
+//
+//	walk with Newfid == pipeFid   a walk IN PLACE (the burst's "walkers")
+//	walk with another Newfid      a walk from F to a new fid (an observer)
+//	stat                          Tstat F (an observer)
+//
+// Either no in-place walk of the burst is complete (as judged by os.Lstat from
+// S) - then nothing may ever move F: every reply must be the one a request
+// served at S gets - or exactly one in-place walk with names is there and it is
+// complete, to T: then every observer must have been served at S or at T.
+// The burst is sent Repeat times (F is put back to S in between when it moved).
+type Burst struct {
+	Start  [][]byte `json:"start"`
+	Reqs   []Op     `json:"reqs"`
+	Repeat int      `json:"repeat"`
 }
 
 // infraError marks trouble of the harness / sandbox (never a violation).
@@ -441,6 +469,11 @@ func RunCase(c *Case) (verr error) {
 			return err
 		}
 	}
+	for i := range c.Pipe {
+		if err := x.doBurst(i, &c.Pipe[i]); err != nil {
+			return err
+		}
+	}
 	if err := x.visitAll(); err != nil {
 		return err
 	}
@@ -581,7 +614,7 @@ func (x *executor) doConc(clnt *go9p.Clnt, deepBefore int) error {
 func (x *executor) doOp(i int, op *Op) error {
 	switch op.Kind {
 	case "walk":
-		return x.doWalk(i, op)
+		return x.doWalk(fmt.Sprintf("op %d", i), op)
 	case "stat":
 		if _, ok := x.model[op.Fid]; !ok {
 			hx.Label("op skipped (fid not live)")
@@ -801,7 +834,67 @@ func nclass(n int) string {
 	return fmt.Sprint(n)
 }
 
-func (x *executor) doWalk(i int, op *Op) error {
+// hostileClass names the reason why a walk element can never be the name of a
+// directory entry ("" for an ordinary name; "len255" is the longest name that
+// can exist).
+func hostileClass(nm string) string {
+	switch {
+	case strings.Contains(nm, "\x00"):
+		return "nul"
+	case strings.Contains(nm, "/"):
+		return "slash"
+	case len(nm) >= 4096:
+		return "len4096+"
+	case len(nm) > 256:
+		return "len257-4095"
+	case len(nm) == 256:
+		return "len256"
+	case len(nm) == 255:
+		return "len255"
+	}
+	return ""
+}
+
+// resolve is the oracle of every walk: the longest prefix of names that exists
+// locally below P, element by element, as os.Lstat of the joined path says (a
+// name that is too long for a directory entry or contains a NUL byte makes
+// Lstat fail like a name that is merely absent: it does not exist). An element
+// that contains '/' is not the name of a directory entry either; when the
+// joined path nevertheless exists on the host the walk is ambiguous and is not
+// judged here (what such elements may reach is C18's subject).
+func (x *executor) resolve(P string, names []string) (infos []os.FileInfo, cur string, ambiguous bool) {
+	cur = P
+	for _, nm := range names {
+		fi, err := os.Lstat(cur + "/" + nm)
+		if err != nil {
+			break
+		}
+		if strings.Contains(nm, "/") {
+			return infos, cur, true
+		}
+		infos = append(infos, fi)
+		cur += "/" + nm
+	}
+	return infos, cur, false
+}
+
+// walkNames converts and checks the names of a Twalk of a case.
+func walkNames(bnames [][]byte) ([]string, error) {
+	if len(bnames) > 16 {
+		return nil, infraf("case: walk with %d names", len(bnames))
+	}
+	names := make([]string, len(bnames))
+	for j, nm := range bnames {
+		s := string(nm)
+		if s == "" || s == "." || s == ".." || len(s) > 5000 {
+			return nil, infraf("case: walk name outside the C16 alphabet: %q", s)
+		}
+		names[j] = s
+	}
+	return names, nil
+}
+
+func (x *executor) doWalk(pfx string, op *Op) error {
 	P, ok := x.model[op.Fid]
 	if !ok {
 		hx.Label("op skipped (fid not live)")
@@ -818,37 +911,25 @@ func (x *executor) doWalk(i int, op *Op) error {
 			return nil
 		}
 	}
-	n := len(op.Names)
-	if n > 16 {
-		return infraf("case: walk with %d names", n)
+	names, err := walkNames(op.Names)
+	if err != nil {
+		return err
 	}
-	names := make([]string, n)
-	for j, nm := range op.Names {
-		s := string(nm)
-		if s == "" || s == "." || s == ".." || strings.ContainsAny(s, "/\x00") {
-			return infraf("case: walk name outside the C16 alphabet: %q", s)
-		}
-		names[j] = s
-	}
+	n := len(names)
 	// oracle: the longest prefix that exists locally
 	startFi, err := os.Lstat(P)
 	if err != nil {
 		return infraf("model path vanished: %v", err)
 	}
-	cur := P
-	var infos []os.FileInfo
-	for _, nm := range names {
-		fi, err := os.Lstat(cur + "/" + nm)
-		if err != nil {
-			break
-		}
-		infos = append(infos, fi)
-		cur += "/" + nm
+	infos, cur, ambiguous := x.resolve(P, names)
+	if ambiguous {
+		hx.Label("op skipped (element with '/' whose joined path exists: not judged)")
+		return nil
 	}
 	k := len(infos)
 	fromSymlink := startFi.Mode()&os.ModeSymlink != 0
 	what := lazy(func() string {
-		return fmt.Sprintf("op %d: Twalk(fid %d at %s, newfid %d, %s) .u=%v", i, op.Fid, shortPath(x.root, P), op.Newfid, qnames(op.Names), x.dotu)
+		return fmt.Sprintf("%s: Twalk(fid %d at %s, newfid %d, %s) .u=%v", pfx, op.Fid, shortPath(x.root, P), op.Newfid, qnames(op.Names), x.dotu)
 	})
 
 	hx.Eval()
@@ -869,6 +950,24 @@ func (x *executor) doWalk(i int, op *Op) error {
 	if n >= 2 && k >= 1 && k < n {
 		hx.NonTrivial("walk", x.treeH, strings.TrimPrefix(P, x.root), inplace, strings.Join(names, "/"))
 	}
+	for j, nm := range names {
+		hc := hostileClass(nm)
+		if hc == "" || j > k {
+			continue // (elements behind the first one that does not exist are never looked at)
+		}
+		switch {
+		case j < k:
+			hx.Label("walk element exists class=" + hc)
+		case j == 0:
+			hx.Label(fmt.Sprintf("walk FIRST element cannot exist class=%s inplace=%v", hc, inplace))
+			hx.Label(fmt.Sprintf("walk FIRST element cannot exist, more names follow=%v", n > 1))
+			if from == "dir" && hc != "len255" {
+				hx.NonTrivial("walk-hostile", x.treeH, strings.TrimPrefix(P, x.root), inplace, strings.Join(names, "\x01"))
+			}
+		default:
+			hx.Label("walk later element cannot exist class=" + hc)
+		}
+	}
 
 	r, err := x.raw.Walk(op.Fid, op.Newfid, names...)
 	if err != nil {
@@ -879,7 +978,11 @@ func (x *executor) doWalk(i int, op *Op) error {
 	switch {
 	case n > 0 && k == 0:
 		if r.Type != ref9p.Rerror {
-			return fmt.Errorf("%s: the first element does not exist, want Rerror, got %s with %d qids", what, ref9p.TypeName(r.Type), len(r.Wqid))
+			why := ""
+			if hc := hostileClass(names[0]); hc != "" && hc != "len255" {
+				why = fmt.Sprintf(" (it cannot exist: class %s, %d bytes; os.Lstat of the joined path fails)", hc, len(names[0]))
+			}
+			return fmt.Errorf("%s: the first element does not exist%s, want Rerror, got %s with %d qids", what, why, ref9p.TypeName(r.Type), len(r.Wqid))
 		}
 	case r.Type == ref9p.Rerror && fromSymlink && n > 0 && hx.IsKnown(idSymStart):
 		hx.Known(idSymStart, fmt.Sprintf("%s: %d leading elements exist locally, answered Rerror %q", what, k, r.Ename))
@@ -932,6 +1035,419 @@ func (x *executor) doWalk(i int, op *Op) error {
 		}
 	}
 	return nil
+}
+
+// ---------------------------------------------------------------- bursts
+
+func (x *executor) clunkFid(what fmt.Stringer, fid uint32) error {
+	r, err := x.raw.Clunk(fid)
+	if err != nil {
+		return rpcErr(what, err)
+	}
+	if r.Type != ref9p.Rclunk {
+		return fmt.Errorf("%s: Tclunk(fid %d) of a live fid answered %s %q", what, fid, ref9p.TypeName(r.Type), r.Ename)
+	}
+	delete(x.model, fid)
+	delete(x.opened, fid)
+	return nil
+}
+
+// place walks pipeFid from the root along start (Twalks of at most 16 names,
+// the first to the new fid, the others in place; each judged like any
+// sequential walk). false: the directory was not reached (a listed finding).
+func (x *executor) place(pfx string, start [][]byte) (bool, error) {
+	src, want, rest := uint32(0), x.root, start
+	for first := true; first || len(rest) > 0; first = false {
+		m := len(rest)
+		if m > 16 {
+			m = 16
+		}
+		if err := x.doWalk(pfx+" (placing the fid)", &Op{Kind: "walk", Fid: src, Newfid: pipeFid, Names: rest[:m]}); err != nil {
+			return false, err
+		}
+		for _, e := range rest[:m] {
+			want += "/" + string(e)
+		}
+		if x.model[pipeFid] != want {
+			if _, live := x.model[pipeFid]; live {
+				if err := x.clunkFid(str(pfx), pipeFid); err != nil {
+					return false, err
+				}
+			}
+			return false, nil
+		}
+		rest, src = rest[m:], pipeFid
+	}
+	return true, nil
+}
+
+func (x *executor) replyDesc(r *ref9p.Msg) string {
+	switch r.Type {
+	case ref9p.Rerror:
+		return fmt.Sprintf("Rerror %q", r.Ename)
+	case ref9p.Rwalk:
+		var b strings.Builder
+		fmt.Fprintf(&b, "Rwalk with %d qids", len(r.Wqid))
+		for j, q := range r.Wqid {
+			if j == 0 {
+				b.WriteString(": ")
+			} else {
+				b.WriteString(", ")
+			}
+			b.WriteString(x.inoName(q.Path))
+		}
+		return b.String()
+	case ref9p.Rstat:
+		return fmt.Sprintf("Rstat with name %q, qid.path = %s", r.Stat.Name, x.inoName(r.Stat.Qid.Path))
+	}
+	return ref9p.TypeName(r.Type)
+}
+
+// walkFits says whether r is the reply that a Twalk with these names served
+// at P must get, and where the new fid is afterwards ("" if there is none).
+func (x *executor) walkFits(r *ref9p.Msg, P string, names []string) (fits bool, newAt string) {
+	infos, cur, _ := x.resolve(P, names)
+	n, k := len(names), len(infos)
+	if n > 0 && k == 0 {
+		return r.Type == ref9p.Rerror, ""
+	}
+	if r.Type == ref9p.Rerror {
+		if fi, err := os.Lstat(P); err == nil && fi.Mode()&os.ModeSymlink != 0 && n > 0 && hx.IsKnown(idSymStart) {
+			return true, ""
+		}
+		return false, ""
+	}
+	if r.Type != ref9p.Rwalk || len(r.Wqid) != k {
+		return false, ""
+	}
+	for j, q := range r.Wqid {
+		if len(x.qidDiff(q.Type, q.Path, infos[j])) > 0 {
+			return false, ""
+		}
+	}
+	if k == n {
+		return true, cur
+	}
+	return true, ""
+}
+
+func (x *executor) wantDesc(P string, names []string) string {
+	infos, _, _ := x.resolve(P, names)
+	if len(names) > 0 && len(infos) == 0 {
+		return fmt.Sprintf("served at %s: Rerror (the first name does not exist there)", shortPath(x.root, P))
+	}
+	return fmt.Sprintf("served at %s: Rwalk with %d qids", shortPath(x.root, P), len(infos))
+}
+
+func burstReqDesc(q *Op) string {
+	switch {
+	case q.Kind == "stat":
+		return "Tstat(F)"
+	case q.Newfid == pipeFid:
+		return fmt.Sprintf("Twalk(F, F, %s)", qnames(q.Names))
+	}
+	return fmt.Sprintf("Twalk(F, N%d, %s)", q.Newfid-pipeFid, qnames(q.Names))
+}
+
+// burstDeadline only detects a hang.
+const burstDeadline = 30 * time.Second
+
+func (x *executor) doBurst(bi int, b *Burst) error {
+	if len(b.Reqs) == 0 || len(b.Reqs) > 32 {
+		return infraf("case: burst of %d requests", len(b.Reqs))
+	}
+	repeat := b.Repeat
+	if repeat < 1 {
+		repeat = 1
+	}
+	if repeat > 64 {
+		return infraf("case: burst repeated %d times", repeat)
+	}
+	if _, used := x.model[pipeFid]; used {
+		return infraf("case: the burst fid is in use")
+	}
+	seen := map[uint32]bool{}
+	names := make([][]string, len(b.Reqs))
+	for j := range b.Reqs {
+		q := &b.Reqs[j]
+		switch q.Kind {
+		case "stat":
+		case "walk":
+			if q.Newfid != pipeFid && (q.Newfid <= pipeFid || q.Newfid > pipeFid+64 || seen[q.Newfid]) {
+				return infraf("case: burst request %d has newfid %#x", j, q.Newfid)
+			}
+			seen[q.Newfid] = true
+			var err error
+			if names[j], err = walkNames(q.Names); err != nil {
+				return err
+			}
+		default:
+			return infraf("case: burst request of kind %q", q.Kind)
+		}
+		if q.Fid != pipeFid {
+			return infraf("case: burst request %d on fid %#x", j, q.Fid)
+		}
+	}
+	if len(b.Start) > 40 {
+		return infraf("case: burst start of %d elements", len(b.Start))
+	}
+	S := x.root
+	for _, e := range b.Start {
+		if s := string(e); s == "" || s == "." || s == ".." || strings.ContainsAny(s, "/\x00") {
+			return infraf("case: burst start element outside the C16 alphabet: %q", s)
+		}
+		S += "/" + string(e)
+	}
+	if fi, err := os.Lstat(S); err != nil || !fi.IsDir() {
+		hx.Label("burst skipped (start is not an existing real directory)")
+		return nil
+	}
+	pfx := fmt.Sprintf("burst %d", bi)
+	for r := 0; r < repeat; r++ {
+		if _, live := x.model[pipeFid]; !live {
+			ok, err := x.place(pfx, b.Start)
+			if err != nil {
+				return err
+			}
+			if !ok {
+				hx.Label("burst skipped (start not reached)")
+				return nil
+			}
+		}
+		moved, skip, err := x.burstRound(fmt.Sprintf("%s round %d of %d", pfx, r, repeat), b, names, S)
+		if err != nil {
+			return err
+		}
+		if skip {
+			break
+		}
+		if moved {
+			if err := x.clunkFid(str(pfx), pipeFid); err != nil {
+				return err
+			}
+		}
+	}
+	if _, live := x.model[pipeFid]; live {
+		return x.clunkFid(str(pfx), pipeFid)
+	}
+	return nil
+}
+
+// burstRound sends the burst once and judges every reply.
+func (x *executor) burstRound(pfx string, b *Burst, names [][]string, S string) (moved, skip bool, err error) {
+	nreq := len(b.Reqs)
+	// shape of the burst as the local tree says
+	mover, T, walkers, kmax := -1, "", 0, 0
+	for j := range b.Reqs {
+		q := &b.Reqs[j]
+		if q.Kind != "walk" {
+			continue
+		}
+		infos, cur, amb := x.resolve(S, names[j])
+		if amb {
+			hx.Label("burst skipped (element with '/' whose joined path exists: not judged)")
+			return false, true, nil
+		}
+		if q.Newfid != pipeFid || len(names[j]) == 0 {
+			continue
+		}
+		walkers++
+		if len(infos) == len(names[j]) {
+			if mover >= 0 {
+				hx.Label("burst skipped (more than one complete in-place walk: not judged)")
+				return false, true, nil
+			}
+			mover, T = j, cur
+		} else if len(infos) > kmax {
+			kmax = len(infos)
+		}
+	}
+	if mover >= 0 && walkers > 1 {
+		hx.Label("burst skipped (a complete in-place walk next to other in-place walks: not judged)")
+		return false, true, nil
+	}
+	at := []string{S}
+	if mover >= 0 {
+		at = append(at, T)
+		for j := range b.Reqs {
+			if _, _, amb := x.resolve(T, names[j]); amb && b.Reqs[j].Kind == "walk" {
+				hx.Label("burst skipped (element with '/' whose joined path exists: not judged)")
+				return false, true, nil
+			}
+		}
+	}
+	nstat, nobs := 0, 0
+	for j := range b.Reqs {
+		if b.Reqs[j].Kind == "stat" {
+			nstat++
+		} else if b.Reqs[j].Newfid != pipeFid {
+			nobs++
+		}
+	}
+	switch {
+	case mover >= 0:
+		hx.Label(fmt.Sprintf("burst: one COMPLETE in-place walk n=%s + observers", nclass(len(names[mover]))))
+	case walkers > 0:
+		hx.Label(fmt.Sprintf("burst: incomplete in-place walks=%d + observers", walkers))
+		hx.Label(fmt.Sprintf("burst: incomplete in-place walks, longest existing prefix=%s", nclass(kmax)))
+	default:
+		hx.Label("burst: observers only")
+	}
+	hx.Label("burst observers: Tstat=" + nclass(nstat))
+	hx.Label("burst observers: Twalk to new fids=" + nclass(nobs))
+	if mover < 0 && kmax >= 2 && nstat+nobs > 0 {
+		rb, _ := json.Marshal(b.Reqs)
+		hx.NonTrivial("burst", x.treeH, strings.TrimPrefix(S, x.root), rb, x.dotu)
+	}
+	hx.ExtraAdd("burst_rounds", 1)
+	hx.Evals(nreq + 1)
+
+	what := lazy(func() string {
+		var d []string
+		for j := range b.Reqs {
+			d = append(d, burstReqDesc(&b.Reqs[j]))
+		}
+		return fmt.Sprintf("%s (.u=%v): %d requests pipelined in one write on fid F, which designates the directory %s: %s", pfx, x.dotu, nreq, shortPath(x.root, S), strings.Join(d, " | "))
+	})
+
+	// one write, then all the replies
+	tags := make([]uint16, nreq)
+	byTag := map[uint16]int{}
+	var buf []byte
+	for j := range b.Reqs {
+		q := &b.Reqs[j]
+		m := &ref9p.Msg{Type: ref9p.Tstat, Fid: pipeFid}
+		if q.Kind == "walk" {
+			m = &ref9p.Msg{Type: ref9p.Twalk, Fid: pipeFid, Newfid: q.Newfid, Wname: names[j]}
+		}
+		m.Tag = x.raw.NextTag()
+		tags[j], byTag[m.Tag] = m.Tag, j
+		buf = append(buf, ref9p.Encode(m, x.dotu)...)
+	}
+	if err := x.raw.SendRaw(buf); err != nil {
+		return false, false, rpcErr(what, err)
+	}
+	replies := make([]*ref9p.Msg, nreq)
+	deadline := time.Now().Add(burstDeadline)
+	for got := 0; got < nreq; got++ {
+		f, err := x.raw.RecvRaw(time.Until(deadline))
+		if errors.Is(err, rawc.ErrTimeout) {
+			if blocked := hx.BlockedInGo9p(); blocked != "" {
+				return false, false, fmt.Errorf("%s: only %d of %d replies within %v; goroutines blocked inside go9p:\n%s", what, got, nreq, burstDeadline, blocked)
+			}
+			return false, false, infraf("%s: only %d of %d replies within %v and nothing is blocked inside go9p", what, got, nreq, burstDeadline)
+		}
+		if err != nil {
+			return false, false, rpcErr(what, err)
+		}
+		m, _, derr := ref9p.Decode(f, x.dotu)
+		if derr != nil {
+			return false, false, fmt.Errorf("%s: a reply does not decode strictly: %v", what, derr)
+		}
+		j, ok := byTag[m.Tag]
+		if !ok || replies[j] != nil {
+			return false, false, fmt.Errorf("%s: reply %s with tag %d, which is not the tag of an unanswered request of the burst", what, ref9p.TypeName(m.Type), m.Tag)
+		}
+		replies[j] = m
+	}
+
+	where := func(paths []string) string {
+		var d []string
+		for _, p := range paths {
+			d = append(d, shortPath(x.root, p))
+		}
+		return strings.Join(d, " or at ")
+	}
+	rule := "no in-place walk of the burst is complete, so the fid is there before, during and after every one of them"
+	if mover >= 0 {
+		rule = fmt.Sprintf("request %d is the only in-place walk and it is complete, so the fid is at the first place before it and at the second after it", mover)
+	}
+	newAt := make([][]string, nreq) // observer to a new fid: the places the new fid may designate
+	for j := range b.Reqs {
+		q, rp := &b.Reqs[j], replies[j]
+		switch {
+		case q.Kind == "stat":
+			ok := false
+			if rp.Type == ref9p.Rstat {
+				for _, p := range at {
+					if len(x.statDiff(viewOfStat(&rp.Stat), p, p == x.root, x.dotu)) == 0 {
+						ok = true
+					}
+				}
+			}
+			if !ok {
+				diff := ""
+				if rp.Type == ref9p.Rstat {
+					diff = "; against the first: " + strings.Join(x.statDiff(viewOfStat(&rp.Stat), S, S == x.root, x.dotu), "; ")
+				}
+				return false, false, fmt.Errorf("%s: request %d %s answered %s, which is not the stat of the fid at %s (%s)%s", what, j, burstReqDesc(q), x.replyDesc(rp), where(at), rule, diff)
+			}
+		case q.Newfid == pipeFid && len(names[j]) > 0:
+			// an in-place walk starts where the fid is: at S
+			if fits, _ := x.walkFits(rp, S, names[j]); !fits {
+				return false, false, fmt.Errorf("%s: request %d %s answered %s; want, %s (%s)", what, j, burstReqDesc(q), x.replyDesc(rp), x.wantDesc(S, names[j]), rule)
+			}
+		default:
+			fitsAny := false
+			var wants []string
+			for _, p := range at {
+				fits, na := x.walkFits(rp, p, names[j])
+				if fits {
+					fitsAny = true
+					if na != "" {
+						newAt[j] = append(newAt[j], na)
+					}
+				}
+				wants = append(wants, x.wantDesc(p, names[j]))
+			}
+			if !fitsAny {
+				return false, false, fmt.Errorf("%s: request %d %s answered %s; want, %s (%s)", what, j, burstReqDesc(q), x.replyDesc(rp), strings.Join(wants, " or, "), rule)
+			}
+		}
+	}
+
+	// afterwards, one request at a time: the fid, then the new fids
+	F := S
+	if mover >= 0 {
+		F = T
+	}
+	x.model[pipeFid] = F
+	if err := x.expectStat(what.plus(fmt.Sprintf("; all replies were as required (%s); then Tstat(F)", rule)), pipeFid); err != nil {
+		return false, false, err
+	}
+	for j := range b.Reqs {
+		q := &b.Reqs[j]
+		if q.Kind != "walk" || q.Newfid == pipeFid {
+			continue
+		}
+		w := what.plus(fmt.Sprintf("; request %d %s answered %s; then Tstat(N%d)", j, burstReqDesc(q), x.replyDesc(replies[j]), q.Newfid-pipeFid))
+		r, err := x.raw.Stat(q.Newfid)
+		if err != nil {
+			return false, false, rpcErr(w, err)
+		}
+		if len(newAt[j]) == 0 {
+			if r.Type != ref9p.Rerror {
+				return false, false, fmt.Errorf("%s: the walk was not complete, the new fid must not exist, but Tstat answered %s", w, x.replyDesc(r))
+			}
+			continue
+		}
+		ok := false
+		if r.Type == ref9p.Rstat {
+			for _, p := range newAt[j] {
+				if len(x.statDiff(viewOfStat(&r.Stat), p, p == x.root, x.dotu)) == 0 {
+					ok = true
+				}
+			}
+		}
+		if !ok {
+			return false, false, fmt.Errorf("%s: answered %s, which is not the stat of the walk's target %s", w, x.replyDesc(r), where(newAt[j]))
+		}
+		x.model[q.Newfid] = newAt[j][0]
+		if err := x.clunkFid(w, q.Newfid); err != nil {
+			return false, false, err
+		}
+	}
+	return mover >= 0, false, nil
 }
 
 // visitAll stats every node of the tree. Each node is reached with one Twalk
